@@ -242,6 +242,9 @@ func init() {
 		}
 		table = append(table, loopFormTable()...)
 		table = append(table, loopRerunTable()...)
+		for i, sh := range closureInGeneratorShapes {
+			table = append(table, mkShapeProgram("Z"+itoa(100+i), sh))
+		}
 		spec := &diffSpec{
 			profiles: []*profile{controlFlowProfile(), scopingProfile(), rangeProfile(), delegationProfile(), consumerProfile()}, batchSize: 40, batches: rs.vol(12, 600),
 			fixed: table, fixedStyles: true,
